@@ -89,3 +89,46 @@ extern "C" void harness_c03_clean_identifier() {
   }
   WITNESS();
 }
+
+// make_safe_name / clean_identifier turn scoped C++ names into parts of generated symbols (Dtool_<name>,
+// Dtool_Ptr_<name>, xx_<name>_<index>): C03 demands that distinct entities get distinct symbols, i.e. the
+// mapping must be injective on valid scoped names (identifiers joined by "::").
+#ifndef SMAX
+#define SMAX 4
+#endif
+static int sym_scoped_name(char *buf) {
+  static const char A[4] = {'a', 'b', '_', ':'};
+  int len = nondet_int();
+  ASSUME(len >= 1 && len <= SMAX);
+  for (int i = 0; i < SMAX; i++) { unsigned char k = nondet_uchar(); ASSUME(k < 4); buf[i] = A[k]; }
+  // grammar: ident ("::" ident)*; colons come in pairs, never at either end, pairs never adjacent;
+  // ident = letters separated by single underscores (no leading, trailing or double underscore: those spellings are
+  // reserved in C++ and clean_identifier is documented to collapse them)
+  ASSUME(buf[0] != ':' && buf[len - 1] != ':');
+  ASSUME(buf[0] != '_' && buf[len - 1] != '_');
+  for (int i = 0; i + 1 < SMAX; i++)
+    if (i + 1 < len) ASSUME(!(buf[i] == '_' && (buf[i + 1] == '_' || buf[i + 1] == ':')) && !(buf[i] == ':' && buf[i + 1] == '_'));
+  for (int i = 0; i < SMAX; i++)
+    if (i < len && buf[i] == ':') {
+      bool first = i + 1 < len && buf[i + 1] == ':' && (i == 0 || buf[i - 1] != ':');
+      bool second = i >= 1 && buf[i - 1] == ':' && (i + 1 >= len || buf[i + 1] != ':') && (i < 2 || buf[i - 2] != ':');
+      ASSUME(first || second);
+    }
+  return len;
+}
+extern "C" void harness_c03_safe_name_injective() {
+  char x[SMAX + 1], y[SMAX + 1];
+  int nx = sym_scoped_name(x), ny = sym_scoped_name(y);
+  bool differ = nx != ny;
+  for (int i = 0; i < SMAX; i++) if (i < nx && i < ny && x[i] != y[i]) differ = true;
+  ASSUME(differ);
+  std::string rx = InterrogateBuilder::clean_identifier(std::string(x, (size_t)nx));
+  std::string ry = InterrogateBuilder::clean_identifier(std::string(y, (size_t)ny));
+  int ax = (int)rx.size(), ay = (int)ry.size();
+  ASSUME(ax <= SMAX && ay <= SMAX);
+  const char *dx = rx.data(), *dy = ry.data();
+  bool same = ax == ay;
+  for (int i = 0; i < SMAX; i++) if (i < ax && i < ay && dx[i] != dy[i]) same = false;
+  ASSERT(!same, "C03 distinct scoped C++ names map to distinct symbol fragments (make_safe_name is injective on valid names)");
+  WITNESS();
+}
